@@ -58,6 +58,9 @@ func v8Pass(src string, ref jsrun.Result, outputs []v8Output, rec *evid.Recorder
 				rec.Discard("v8: stack-depth RangeError on one side")
 				continue
 			}
+			if c01EscapedDirective(src, o.Code) {
+				return failf("[%s] on V8: a string statement that is no directive in the source is emitted as the directive \"use strict\"\nsource: %s\noutput: %s %s\nsrc  %q\ncode %q", o.Label, refN, got, got.Detail, src, o.Code).tag("v8", "escaped-directive-becomes-directive")
+			}
 			return failf("[%s] on V8 (node %s) the compiled code behaves differently from the source\nsource: %s\noutput: %s %s\nsrc  %q\ncode %q", o.Label, trimNL(jsrun.NodeVersion()), refN, got, got.Detail, src, o.Code).tag("v8")
 		}
 	}
